@@ -238,6 +238,31 @@ def rule_i4(repo, col):
             ret = t["atom"][2]
             col.decide("I4", f.module, f.node, ret is not None and (ret.startswith("self.semiring.one()") or ret.startswith("(self.semiring.one(),")), "%s: an unweighted atom has weight one()" % qn,
                        "%s must give an atom without explicit weight the weight one(); returns %s" % (qn, ret), construct="def %s: atom weight" % qn, function=qn)
+    # the folds visit every child: an early exit from an accumulation loop is only as good as the test it is taken on - a semiring predicate with a tolerance
+    # (SemiringProbability.is_zero accepts |x| < 1e-12) makes the back-end disagree with the others on small non-zero values
+    exact = {}
+    for c_ in repo.all_classes():
+        iz = c_.methods.get("is_zero")
+        if iz is None or ".test" in c_.module.name:
+            continue
+        rets = [norm(r.value) for r in walk_no_nested(iz.node) if isinstance(r, ast.Return) and r.value is not None]
+        exact[c_.name] = all(("==" in r_ or " is " in r_) and "<" not in r_ and ">" not in r_ for r_ in rets)
+    for mod, qn in walkers:
+        f = repo.func(mod, qn)
+        for lp in [n for n in ast.walk(f.node) if isinstance(n, ast.For)]:
+            acc = [x for x in ast.walk(lp) if isinstance(x, ast.Call) and norm(x.func) in ("self.semiring.times", "self.semiring.plus")]
+            if not acc:
+                continue
+            exits = [x for x in ast.walk(lp) if isinstance(x, (ast.Return, ast.Break))]
+            if not exits:
+                col.ok("I4", f.module, lp, "%s: the fold loop visits every child" % qn, construct="def %s: fold loop at %s without early exit" % (qn, norm(lp.iter)[:30]), function=qn)
+                continue
+            inexact = sorted(k for k, v in exact.items() if not v)
+            col.decide("I4", f.module, exits[0], not inexact, "%s: early exit of a fold is taken on exact tests only" % qn,
+                       "%s leaves its %s loop early (%s): whatever semiring test decides that exit, %s compare(s) with a tolerance, so a small non-zero partial result is flushed "
+                       "to the annihilator under that semiring only - this back-end then disagrees with the others (and with the log / symbolic semirings) on programs whose "
+                       "evidence has a tiny probability" % (qn, norm(acc[0].func).rsplit(".", 1)[-1], norm(exits[0])[:50], ", ".join("%s.is_zero" % k for k in inexact)),
+                       construct="def %s: early exit from a fold loop" % qn, function=qn)
     # negative literal: weight[1], or negate of the positive weight
     for qn in ("FormulaEvaluator.get_weight", "FormulaEvaluatorNSP.get_weight"):
         f = repo.func(EV, qn)
